@@ -63,7 +63,8 @@ def generate(tier, rng):
         ic = rng.random() < 0.4
         unique = rng.random() < 0.6
         names = rc.names_for(rng, t, sep, unique, ic or rng.random() < 0.5, not unique)
-        c = {"fam": "resolve", "tree": t, "names": names, "sep": sep, "queries": [], "unique": unique}
+        c = {"fam": "resolve", "tree": t, "names": names, "sep": sep, "queries": [], "unique": unique,
+             "cls": rng.choice([None, None, "len", "falsy", "eq"])}
         labs = gen.tree_labels(t)
         stress = rng.random() < 0.15
         nq = 30 if stress else 8
